@@ -352,6 +352,21 @@ Definition metric_eqb (a b : metric) : bool :=
   (m_del a =? m_del b) && (m_file a =? m_file b) && (m_delb a =? m_delb b) &&
   (m_fileb a =? m_fileb b) && (m_max a =? m_max b).
 
+(* the counters a needle map should show after a history, computed from the reference map:
+   every Put is a file; overwriting or deleting a live entry is a deletion of its size *)
+Definition ref_metric_step (st : rmap * metric) (o : op) : rmap * metric :=
+  let '(r, m) := st in
+  let m' := match o with
+            | Put k _ sz =>
+                let m1 := add_file (maybe_max m k) sz in
+                match ref_get r k with Some (_, os) => if (0 <? os)%Z then add_del m1 os else m1 | None => m1 end
+            | Del k _ =>
+                match ref_get r k with Some (_, os) => if (0 <? os)%Z then add_del m os else m | None => m end
+            | Get _ => m
+            end in
+  (fst (ref_step r o), m').
+Definition ref_metric (ops : list op) : metric := snd (fold_left ref_metric_step ops ([], metric0)).
+
 (* ---------- NeedleMap (in memory, over a CompactMap) ---------- *)
 Record nm := { nm_map : cmap; nm_met : metric; nm_idx : list N }.
 Definition nm0 : nm := {| nm_map := []; nm_met := metric0; nm_idx := [] |}.
